@@ -48,3 +48,7 @@ PENDING.pop("C10", None)
 _p("C07", "other",
    "Static necessary conditions of lexical identifier resolution: memo-key completeness for the gate memo table of Builder (the key consults the context for every argument form through which construction consults it, including nested forms), precedence of macro parameters over the enclosing context in the merge used to build macro bodies (idiom table), and that re-linking of macro bodies returns the original node only under a 'changed' test and preserves every block/loop/macro field when it rebuilds (field-flow CTOR rule). Decides those clauses for all programs; does not decide equality of meaning for all placements.")
 PENDING.pop("C07", None)
+
+_p("C01", "other",
+   "Static clauses of the generator/parser round trip. C01.1 is an exact decision: the regular language the number printer can emit (derived from the formatter found in the generator; CPython float-repr language) is included in the lexer's NUMBER/INT token languages (automata built from the token regexes with re._parser), no earlier-ordered lexer rule matches a prefix of a printed literal, the token conversions are the inverse of the formatter and the formatter is lossless; violations come with the shortest witness literal. C01.2: identifier regex inclusion and the qubit-reference template. C01.3: information-flow necessity -- the printer reads every IR field that has a textual representation. C01.5: IR-valued holes are printed through the value printer. Does not decide equality of the re-parsed circuit for every program.")
+PENDING.pop("C01", None)
